@@ -70,7 +70,9 @@ theorem ore_goLines (cfg : Cfg) (st : LState) (ls : List Str) : OnlyReaderErrs (
     simp only
     split
     · exact ore_stepLine _ _ _
-    · exact ore_append (ore_stepLine _ _ _) (ih _)
+    · split
+      · exact ore_append (ore_stepLine _ _ _) (ore_flushBlock _ _)
+      · exact ore_append (ore_stepLine _ _ _) (ih _)
 
 theorem ore_readData (cfg : Cfg) (ls : List Str) : OnlyReaderErrs (readData cfg ls) := ore_goLines _ _ _
 
